@@ -85,8 +85,10 @@ def AxlM.ofNums : List Nat → Option AxlM
            arvalid := n2b arv, araddr := ara, rready := n2b rr }
   | _ => none
 
+/-- As outputs of a bridge the nine signals are followed by `aw.prot`, `ar.prot` (never driven by a bridge, and
+    the harness leaves a master's `prot` at 0): constant 0. -/
 def AxlM.toNums (m : AxlM) : List Nat :=
-  [b2n m.awvalid, m.awaddr, b2n m.wvalid, m.wdata, m.wstrb, b2n m.bready, b2n m.arvalid, m.araddr, b2n m.rready]
+  [b2n m.awvalid, m.awaddr, b2n m.wvalid, m.wdata, m.wstrb, b2n m.bready, b2n m.arvalid, m.araddr, b2n m.rready, 0, 0]
 
 def AxlS.ofNums : List Nat → Option AxlS
   | [awr, wr, bv, bre, arr, rv, rre, rd] =>
@@ -102,7 +104,8 @@ def WbM.ofNums : List Nat → Option WbM
     some { cyc := n2b cyc, stb := n2b stb, we := n2b we, adr := adr, sel := sel, datw := dat }
   | _ => none
 
-def WbM.toNums (m : WbM) : List Nat := [b2n m.cyc, b2n m.stb, b2n m.we, m.adr, m.sel, m.datw]
+/-- As outputs of a bridge the six signals are followed by `cti`, `bte` (classic cycles only): constant 0. -/
+def WbM.toNums (m : WbM) : List Nat := [b2n m.cyc, b2n m.stb, b2n m.we, m.adr, m.sel, m.datw, 0, 0]
 
 def WbS.ofNums : List Nat → Option WbS
   | [ack, dat, err] => some { ack := n2b ack, datr := dat, err := n2b err }
